@@ -1,5 +1,6 @@
-import Req.Lemmas.C03H2Conn
+import Req.Lemmas.C03H2Over
 import Req.C03.H2Pool
+import Req.Lemmas.C03H2Wire
 /-!
 C03 — HTTP/2: a truncated, over-long or spliced body is never reported as success; a broken
 connection is not reused.
@@ -129,7 +130,26 @@ theorem h2_overlong_is_error (sid : Nat) (ops1 ops2 : List H2XOp) (r : H2Res) (n
     NoCleanEOF (((H2X.init sid false).run ops1).2.run ops2).1 :=
   run_surplus (Inv.reach sid false ops1) (Or.inr ⟨r, n, hres, hp, hcl, hbuf, hsur⟩) ops2
 
--- content-length: 2; DATA "abc" arrives after the caller drained... here: one frame, reads of 1
+/-- **h2_overlong_frames.** The same in terms of frames: before any END_STREAM the DATA frames —
+however many, however split, interleaved with caller reads of any sizes at any moments — bring more
+bytes than the declared length, the last of them possibly with END_STREAM itself (surplus in the
+same frame, in a later frame after the caller drained the declared bytes, declared length zero,
+declared length equal to the caller's buffer): from then on no read ever ends cleanly, whatever
+follows. -/
+theorem h2_overlong_frames (sid : Nat) (ops1 ops2 : List H2XOp) (p : Bytes) (pad es : Bool) (r : H2Res) (n : Nat)
+    (hes : ∀ e ∈ evsOf ops1, e.noES = true)
+    (hres : ((H2X.init sid false).run ops1).2.st.res = some r) (hcl : r.contentLength = some n)
+    (hsur : (dataOf (evsOf ops1)).length + p.length > n) :
+    NoCleanEOF ((((H2X.init sid false).run ops1).2.step (.data p pad es)).run ops2).1 := by
+  have hi := Inv.reach sid false ops1
+  obtain ⟨_, ho⟩ := run_open (x := H2X.init sid false) (Inv.init false) Open.init ops1 hes
+  have hs := Shut.run (x := H2X.init sid false) (Shut.init false) ops1
+  have hh : ((H2X.init sid false).run ops1).2.st.isHead = false :=
+    (Mono.run (x := H2X.init sid false) (Inv.init false) ops1).isHead.trans rfl
+  have hsp := surplus_after_data hi ho hs hh r n hres hcl p pad es hsur
+  exact run_surplus (hi.step _) hsp ops2
+
+-- content-length: 2; the third byte arrives in a later frame, after the caller drained the two
 example :
     ((H2X.init 1 false).run [.ev (.headers [([58, 115, 116, 97, 116, 117, 115], [50, 48, 48]),
         ([99, 111, 110, 116, 101, 110, 116, 45, 108, 101, 110, 103, 116, 104], [50])] false),
@@ -330,11 +350,71 @@ theorem head_no_body_run (ops : List H2XOp) : ∀ (x : H2X) (O D : Bytes), Inv x
             · simp [hr0] at hr
             · split at hr <;> simp [hr0] at hr
 
+/-- A 204 / 304 response that ends on its HEADERS frame has no body that could be missing,
+whatever Content-Length it declares (`bodyAllowedForStatus`). -/
+theorem h2_bodiless_status_no_short (s : H2Stream) (fs : Fields) (r : H2Res) (s' : H2Stream)
+    (h : s.handleResponse fs true = (.ok (some r), s')) (hh : s.isHead = false)
+    (hst : r.status = 204 ∨ r.status = 304) : r.body = .noBody := by
+  unfold H2Stream.handleResponse at h
+  split at h
+  · simp at h
+  · split at h
+    · simp at h
+    · split at h
+      · simp at h
+      · simp only [] at h
+        split at h
+        · split at h
+          · simp at h
+          · split at h <;> simp at h
+        · simp only [hh, Bool.false_eq_true, if_false, if_true] at h
+          simp only [Prod.mk.injEq, Except.ok.injEq, Option.some.injEq] at h
+          obtain ⟨rfl, _⟩ := h
+          simp only [] at hst ⊢
+          split
+          · rename_i n hn
+            split
+            · rename_i hc
+              rcases hst with hst | hst <;> simp [bodyAllowedForStatusH2, hst] at hc
+            · rfl
+          · rfl
+
 /-- **h2_head_no_body.** A response to HEAD never has a body that could come up short, whatever
 length it declares: the body is `noBody`. -/
 theorem h2_head_no_body (sid : Nat) (ops : List H2XOp) (r : H2Res)
     (hres : ((H2X.init sid true).run ops).2.st.res = some r) : r.body = .noBody := by
   exact head_no_body_run ops (H2X.init sid true) [] [] (Inv.init true) rfl (by simp [H2X.init, H2Stream.init]) r hres
+
+/-! ### the wire: a cut inside a frame -/
+
+section wire
+open Req.H2.Frame
+/-- **A frame cut short by the transport never reaches the stream.** The connection's bytes end
+`j` bytes into a frame (inside its 9-byte header or inside its payload), whatever the frame is:
+`Framer.ReadFrame` returns an error (`io.EOF`, `io.ErrUnexpectedEOF`, or "frame too large") and no
+frame — the read loop ends (`H2XEv.connLost`), exactly as for a close at the frame boundary. -/
+theorem h2_midframe_cut_is_conn_lost (r : Reader) (input : Bytes) (fh : FrameHeader) (rest : Bytes)
+    (hp : parseHeader input = some (fh, rest)) (j : Nat) (hj : j < 9 + fh.length) :
+    ∃ e, (readFrame r (input.take j)).1 = .error e ∧ (e = .eof ∨ e = .unexpectedEOF ∨ e = .tooLarge) := by
+  unfold readFrame
+  by_cases h9 : j < 9
+  · have : parseHeader (input.take j) = none := parseHeader_short _ (by simp; omega)
+    rw [this]
+    simp only []
+    split
+    · exact ⟨_, rfl, Or.inl rfl⟩
+    · exact ⟨_, rfl, Or.inr (Or.inl rfl)⟩
+  · rw [parseHeader_take input fh rest hp j (by omega)]
+    simp only []
+    split
+    · exact ⟨_, rfl, Or.inr (Or.inr rfl)⟩
+    · have hlt : (rest.take (j - 9)).length < fh.length := by simp; omega
+      simp only [hlt, if_true]
+      split
+      · exact ⟨_, rfl, Or.inl rfl⟩
+      · exact ⟨_, rfl, Or.inr (Or.inl rfl)⟩
+
+end wire
 
 /-! ### the connection pool -/
 
